@@ -51,7 +51,8 @@ struct Drv {
   arr_k: Vec<Value>, arr_t: Vec<Value>,  // arrivals delivered since the last logged call
   malformed_write: bool,  // system-call mode: the bytes of the write being logged were not a well-formed batch
   log_state: bool,        // walks: log the shadow mapper's state next to every event it is given
-  phys_down: Vec<KeyCode> // keys down on the scripted device (what EVIOCGKEY reports in the full-stack runs)
+  phys_down: Vec<KeyCode>, // keys down on the scripted device (what EVIOCGKEY reports in the full-stack runs)
+  stuck: bool, send_failed: bool
 }
 
 impl Drv {
@@ -215,6 +216,9 @@ impl ScriptedDriver for Drv {
 
   fn send(&mut self, evs: &Vec<Event>) -> Result<(), String> {
     let (mut rec, fail) = self.begin("send");
+    // a consumer that stays stalled: once an injected failure has hit a write, every later write fails as well
+    let fail = fail || (self.stuck && self.send_failed);
+    if fail { self.send_failed = true; }
     rec["evs"] = jevs(evs);
     if self.malformed_write { rec["evs"].as_array_mut().unwrap().push(json!({"t": "?", "k": "malformed write"})); self.malformed_write = false; }
     rec["res"] = json!(if fail { "err" } else { "ok" });
@@ -242,7 +246,7 @@ fn new_drv(layout: &Layout, labels: &[Lbl], fault: usize, sleep: &[String]) -> D
     k_ready: false, t_ready: false, ended: false, log: vec![],
     shadow: Mapper::for_layout(layout), fresh: Mapper::for_layout(layout), layout: layout.clone(), in_tab: false,
     calls: 0, fault, cap: 400 + 20 * labels.len(), sleep: sleep.to_vec(), nsleep: 0, intr_ok: true, arr_k: vec![], arr_t: vec![],
-    malformed_write: false, log_state: false, phys_down: vec![]
+    malformed_write: false, log_state: false, phys_down: vec![], stuck: true, send_failed: false
   }
 }
 
